@@ -940,7 +940,39 @@ func c05gen(w *World, r *Report, isPersist func(*Site) bool) {
 	if !found {
 		r.Bad("C05.gen", "ValidateAccountsOnGenesis compares sum of locked with the module balance", w.Pos(vg.Pos()), "comparison not found")
 	}
+	genesisDenomRule(w, r, "C05.gen", vg)
+	// the pools are stored as they were validated: no field of an imported record is rewritten on the way (= C12.verbatim)
+	shareRule(w, r, checkC12, "C12.verbatim", "C05.gen", func(o Obligation) bool { return strings.Contains(o.Construct, "x/cfevesting.") })
 }
+
+// genesisDenomRule: the balance the genesis solvency validation compares is the module account's balance of the
+// denomination THIS genesis document declares: on every alternative the denomination handed to the bank is
+// GenesisState.Params.Denom (a default substituted for it makes the validation pass or fail for the wrong coins - an
+// exported state with another denomination cannot be imported).
+func genesisDenomRule(w *World, r *Report, rule string, vg *ssa.Function) {
+	for _, e := range w.effectsBelow(vg, func(s *Site) bool { return cg05Atom(w, s) == BankRead && s.Method == "GetBalance" }, 2) {
+		args := e.RootArgs()
+		var denom ssa.Value
+		for _, a := range args {
+			if typeString(a.Type()) == "string" {
+				denom = a
+			}
+		}
+		okD := denom != nil
+		if okD {
+			alts := w.LiveValuesDeep(vg, func(ssa.Value) (bool, bool) { return false, false }, denom, 2)
+			okD = len(alts) > 0
+			for _, dv := range alts {
+				if !loadOfField(dv.Root, "Denom", nil) || !w.Tracer().Origins(dv.Root).HasLeaf("param", ".GenesisState.Params") {
+					okD = false
+				}
+			}
+		}
+		r.Check(okD, rule, "ValidateAccountsOnGenesis: the balance compared is of the genesis document's own denomination", w.Pos(e.Site.Instr.Pos()), "GetBalance(module account, genState.Params.Denom) on every alternative", "the module balance is read in a denomination that is not (always) the one the genesis document declares: the solvency check compares the pools with the wrong coins")
+	}
+}
+
+func cg05Atom(w *World, s *Site) string { return w.CG().Atom(s) }
 
 // c05locked: GetCurrentlyLocked = InitiallyLocked - Sent - Withdrawn, and VestingPool.Validate guards the ledger.
 func c05locked(w *World, r *Report) {
